@@ -29,6 +29,7 @@ RULE = (
     "inputs of the well-formed language must be accepted with exactly their records. Non-trivial: the input "
     "contains CR/LF or yields >= 2 rows; enumerated cases are distinct by construction, generated ones by hash."
     "A second reading of the same characters advances in turn with the judged one. Declared encodings include EBCDIC code pages; sources include a spooled temporary file."
+    "Files without the byte order mark UTF-16 / UTF-32 insist on must fail with a data-format error; every data-format error must be printable; a fixed CID put together in steps reports the widths it has when asked."
 )
 ASSUMPTIONS = [
     "streams are opened with newline='' (no newline translation by the caller)",
